@@ -1,0 +1,44 @@
+//go:build verif
+
+package transaction
+
+// Machine-checked contracts for /verif/govc (contract-based deductive verification).
+// This file contains comments only; it is compiled only with -tags verif and adds no code.
+
+// ---------------------------------------------------------------- what a transaction's hash commits to (C30)
+// `binds x`: two transactions equal in everything but x have different hash data (relational
+// obligation; string building is a free constructor, the encoders and the hash are injective).
+// The property lists time, nonce, sender, recipient, value, data, fee and type.
+//@ func (*Transaction).HashData
+//@   prop C30
+//@   requires t != nil
+//@   binds t.CreationDate, t.Nonce, t.ClientID, t.ToClientID, t.Value, t.TransactionData
+//@   binds t.Fee, t.TransactionType
+
+// VerifyHash accepts at most one value of each committed field for a given t.Hash: of two
+// transactions that differ only in such a field (same recorded hash) at most one passes.
+//@ func (*Transaction).VerifyHash
+//@   prop C30
+//@   inline-all
+//@   requires t != nil
+//@   binds-accept t.CreationDate, t.Nonce, t.ClientID, t.ToClientID, t.Value, t.TransactionData
+
+// The client id of an accepted transaction is the hash of the public key it carries.
+//   pkid(k): hash of the decoded public key k
+//@ uf pkid (Str) Str
+//@ assume func 0chain.net/core/encryption.VerifyPublicKeyClientID
+//@   params pubKey clientID
+//@   pure
+//@   ensures result == nil ==> clientID == pkid(pubKey)
+//@ assume func 0chain.net/chaincore/client.GetIDFromPublicKey
+//@   params pubKey
+//@   pure
+//@   ensures result1 == nil ==> result0 == pkid(pubKey)
+
+//@ func (*Transaction).ComputeClientID
+//@   prop C30
+//@   requires t != nil
+//@   ensures[client-id-is-hash-of-key] result == nil ==> t.PublicKey != "" && t.ClientID == pkid(t.PublicKey)
+//@   ensures[key-untouched] t.PublicKey == old(t.PublicKey)
+//@   ensures[given-id-kept] old(t.ClientID) != "" ==> t.ClientID == old(t.ClientID)
+//@   modifies t.ClientID
